@@ -1614,10 +1614,14 @@ class Segment(Element):
             super(Segment, self).__init__(name, parent, reference, version,
                                           validation_level, traversal_parent)
 
-            last_field = self.ordered_children[-1]
-            last_field_structure = self.structure_by_name[last_field]
-            self.allow_infinite_children = last_field_structure['ref'][2] == 'varies'
-            self._last_allowed_child_index = int(last_field_structure['name'][4:])
+            if self.ordered_children:
+                last_field = self.ordered_children[-1]
+                last_field_structure = self.structure_by_name[last_field]
+                self.allow_infinite_children = last_field_structure['ref'][2] == 'varies'
+                self._last_allowed_child_index = int(last_field_structure['name'][4:])
+            else:  # segment that defines no fields (e.g. QRD from version 2.7)
+                self.allow_infinite_children = False
+                self._last_allowed_child_index = 0
             self._last_child_index = self._last_allowed_child_index
 
     def add(self, obj):
